@@ -46,6 +46,9 @@ pub struct Req {
     /// injected file-system fault: input-is-dir | input-missing | outdir-missing | out-dev-full | tmpdir-missing
     #[serde(default)]
     pub fs_fault: Option<String>,
+    /// server-proc only: this many clients send the request at the same moment, twice
+    #[serde(default)]
+    pub burst: u8,
 }
 
 #[derive(Serialize, Deserialize, Clone, Debug, PartialEq)]
@@ -64,6 +67,10 @@ pub struct Scn {
     pub schedule: Option<Vec<u32>>,
     pub entropy: u64,
     pub clock_ns: u64,
+    /// every request carries its own wall-clock value (its client number decides it): the
+    /// local-style id of one transform must not leak into another one's output
+    #[serde(default)]
+    pub per_request_clock: bool,
 }
 
 const STEP_BUDGET: u64 = 2_000_000;
@@ -99,13 +106,26 @@ fn client_dir(env: &WorkerEnv, c: usize) -> PathBuf {
     env.scratch.join("c07").join(format!("c{c}"))
 }
 
-fn solo(doc: &Doc, cfg: &Cfg) -> Outcome {
+fn solo(doc: &Doc, cfg: &Cfg, clock: Option<u64>) -> Outcome {
     let (d, c) = (doc.0.clone(), cfg.clone());
-    on_thread(STACK_MAIN, move || match fe_str(&d, &c) {
-        Some(o) => o,
-        None => fe_stream_plain(&d, &c).0,
+    on_thread(STACK_MAIN, move || {
+        if let Some(ns) = clock {
+            crate::seam::set_thread_time(ns);
+        }
+        match fe_str(&d, &c) {
+            Some(o) => o,
+            None => fe_stream_plain(&d, &c).0,
+        }
     })
     .unwrap_or(Outcome::Panic("golden thread failed".into()))
+}
+
+fn request_clock(scn: &Scn, req: &Req) -> Option<u64> {
+    if scn.per_request_clock {
+        Some(scn.clock_ns + 1_000_000_007 * req.client as u64)
+    } else {
+        None
+    }
 }
 
 fn do_request(env: &WorkerEnv, scn: &Scn, req: &Req, thread: usize, idx: usize, yield_io: Option<simio::YieldFn>) -> Resp {
@@ -124,6 +144,10 @@ fn do_request(env: &WorkerEnv, scn: &Scn, req: &Req, thread: usize, idx: usize, 
         fired_transparent: false,
         http: None,
     };
+    let clock = request_clock(scn, req);
+    if let Some(ns) = clock {
+        crate::seam::set_thread_time(ns);
+    }
     match req.fe.as_str() {
         "str" => {
             r.outcome = fe_str(doc, cfg).unwrap_or_else(|| fe_stream_plain(doc, cfg).0);
@@ -166,6 +190,31 @@ fn do_request(env: &WorkerEnv, scn: &Scn, req: &Req, thread: usize, idx: usize, 
                 let mut guard = SERVER.lock().unwrap();
                 match guard.as_mut() {
                     None => None,
+                    Some(srv) if req.burst > 0 => {
+                        let port = srv.port;
+                        let all = http_burst(port, doc, am, req.burst as usize, 2, Duration::from_secs(20));
+                        let alive = srv.alive();
+                        r.notes.push(format!("burst_of_{}", all.len()));
+                        // all answers must be the same answer: judge one which differs from
+                        // the first, if there is one
+                        let first = all.first().cloned().flatten();
+                        let differing = all.iter().find(|h| match (h, &first) {
+                            (Some(h), Some(f)) => h.status != f.status || h.body != f.body,
+                            (None, None) => false,
+                            _ => true,
+                        });
+                        let h = match differing {
+                            Some(d) => {
+                                r.notes.push("burst_answers_differ".into());
+                                d.clone()
+                            }
+                            None => first,
+                        };
+                        if h.is_none() {
+                            *guard = None;
+                        }
+                        Some((h, alive))
+                    }
                     Some(srv) => {
                         let h = srv.post(doc, am, Duration::from_secs(10));
                         let alive = srv.alive();
@@ -204,7 +253,10 @@ fn do_request(env: &WorkerEnv, scn: &Scn, req: &Req, thread: usize, idx: usize, 
                 r.outcome = Outcome::Panic("harness: mkdir".into());
                 return r;
             }
-            let inp = dir.join("in.xml");
+            // (the output-is-a-directory aliases use an input which already has the name an
+            // output placed in that directory would get)
+            let in_name = if matches!(req.alias.as_deref(), Some("dir" | "dir-dot")) { "in.svg" } else { "in.xml" };
+            let inp = dir.join(in_name);
             let mut outp = dir.join("out.svg");
             let mut in_arg = inp.display().to_string();
             match req.fs_fault.as_deref() {
@@ -228,6 +280,8 @@ fn do_request(env: &WorkerEnv, scn: &Scn, req: &Req, thread: usize, idx: usize, 
                 // the output path names the input file
                 match kind.as_str() {
                     "same" => outp = inp.clone(),
+                    "dir" => outp = dir.clone(),
+                    "dir-dot" => outp = dir.join("."),
                     "dot" => outp = dir.join(".").join("in.xml"),
                     "dotdot" => {
                         let _ = std::fs::create_dir_all(dir.join("sub"));
@@ -272,9 +326,10 @@ fn do_request(env: &WorkerEnv, scn: &Scn, req: &Req, thread: usize, idx: usize, 
                 let stdin_data;
                 if fe == "cli-proc-file" {
                     // relative spelling of the same paths, from the client's directory
-                    args.push("in.xml".into());
+                    args.push(in_name.into());
                     args.push("-o".into());
                     args.push(match outp.strip_prefix(&dir) {
+                        Ok(rel) if rel.as_os_str().is_empty() => ".".to_string(),
                         Ok(rel) => rel.display().to_string(),
                         Err(_) => out_arg.clone(),
                     });
@@ -294,7 +349,7 @@ fn do_request(env: &WorkerEnv, scn: &Scn, req: &Req, thread: usize, idx: usize, 
                         stdin: stdin_data,
                         cwd: &dir,
                         entropy: Some(scn.entropy ^ (idx as u64 + 1)),
-                        fake_time_ns: Some(scn.clock_ns),
+                        fake_time_ns: Some(clock.unwrap_or(scn.clock_ns)),
                         env: envs,
                         env_remove: vec![],
                         timeout: Duration::from_secs(20),
@@ -330,6 +385,9 @@ fn do_request(env: &WorkerEnv, scn: &Scn, req: &Req, thread: usize, idx: usize, 
             let _ = std::fs::remove_dir_all(&dir);
         }
         other => r.outcome = Outcome::Panic(format!("harness: unknown front-end {other}")),
+    }
+    if clock.is_some() {
+        crate::seam::clear_thread_time();
     }
     r
 }
@@ -421,7 +479,8 @@ impl Engine for C07 {
             server_cfgs.push(cfgs.len() - 1);
         }
         let n_threads = 1 + w.usize(4);
-        let mut threads = Vec::new();
+        let mut threads: Vec<Vec<Req>> = Vec::new();
+        let mut burst_reqs: Vec<(usize, usize)> = Vec::new();
         let mut client = 0;
         for _ in 0..n_threads {
             let n_req = 1 + w.usize(4);
@@ -470,7 +529,12 @@ impl Engine for C07 {
                     out_pre: None,
                     alias: None,
                     fs_fault: None,
+                    burst: 0,
                 };
+                if fe == "server-proc" && w.chance(1, 2) {
+                    r.burst = 6 + w.below(7) as u8;
+                    burst_reqs.push((threads.len(), reqs.len()));
+                }
                 if fe == "stream" {
                     let len = docs[doc].0.len();
                     let hr = damage && f.chance(1, 3);
@@ -491,7 +555,7 @@ impl Engine for C07 {
                     if damage {
                         match f.below(10) {
                             0..=2 => {
-                                r.alias = Some(f.pick(&["same", "dot", "dotdot", "symlink", "hardlink", "symlink-in"]).to_string());
+                                r.alias = Some(f.pick(&["same", "dot", "dotdot", "symlink", "hardlink", "symlink-in", "dir", "dir-dot"]).to_string());
                             }
                             3..=5 => {
                                 let mut kinds = vec!["input-is-dir", "input-missing", "outdir-missing", "out-dev-full"];
@@ -507,6 +571,17 @@ impl Engine for C07 {
                 reqs.push(r);
             }
             threads.push(reqs);
+        }
+        // requests sent as a burst use a document heavy enough for the transforms to overlap
+        // inside the server (a few milliseconds each)
+        if !burst_reqs.is_empty() {
+            let n = 150 + w.below(250);
+            docs.push(Doc::from_str(&format!(
+                "<svg>\n  <loop count=\"{n}\" loop-var=\"i\"><rect xy=\"{{{{$i * 3}}}} {{{{$i % 7}}}}\" wh=\"2\" text=\"n$i\" class=\"d-fill-red\"/><circle cxy=\"^@br\" r=\"{{{{1 + $i % 3}}}}\"/></loop>\n</svg>\n"
+            )));
+            for (t, q) in &burst_reqs {
+                threads[*t][*q].doc = docs.len() - 1;
+            }
         }
         let policy = match sp.below(8) {
             0 => Policy::Sequential,
@@ -529,6 +604,7 @@ impl Engine for C07 {
             schedule: None,
             entropy: Rng::sub(rs, "entropy").next_u64(),
             clock_ns: 1_700_000_000_000_000_000 + Rng::sub(rs, "clock").below(86_400_000_000_000),
+            per_request_clock: Rng::sub(rs, "request-clock").chance(1, 2),
         };
         serde_json::to_value(scn).unwrap()
     }
@@ -556,16 +632,19 @@ impl Engine for C07 {
         let _ = std::fs::remove_dir_all(env.scratch.join("c07"));
 
         // ---- reference model: golden result per distinct (doc, cfg), solo, forward then reverse
-        let mut pairs: Vec<(usize, usize)> = scn.threads.iter().flatten().map(|r| (r.doc, r.cfg)).collect();
+        let mut pairs: Vec<(usize, usize, Option<u64>)> = scn.threads.iter().flatten().map(|r| (r.doc, r.cfg, request_clock(&scn, r))).collect();
         pairs.sort();
         pairs.dedup();
-        let mut golden: BTreeMap<(usize, usize), Outcome> = BTreeMap::new();
+        if scn.per_request_clock {
+            res.stats.probe("every_request_has_its_own_clock");
+        }
+        let mut golden: BTreeMap<(usize, usize, Option<u64>), Outcome> = BTreeMap::new();
         for p in &pairs {
-            golden.insert(*p, solo(&scn.docs[p.0], &scn.cfgs[p.1]));
+            golden.insert(*p, solo(&scn.docs[p.0], &scn.cfgs[p.1], p.2));
             res.stats.evaluations += 1;
         }
         for p in pairs.iter().rev() {
-            let again = solo(&scn.docs[p.0], &scn.cfgs[p.1]);
+            let again = solo(&scn.docs[p.0], &scn.cfgs[p.1], p.2);
             res.stats.evaluations += 1;
             if again != golden[p] {
                 res.violation(
@@ -573,6 +652,56 @@ impl Engine for C07 {
                     "c07:golden-order-dependent",
                     format!("solo result of (doc {}, cfg {}) differs between the forward and the reverse pass: {} vs {}", p.0, p.1, golden[p].brief(), again.brief()),
                 );
+            }
+        }
+
+        // ---- the same reference from a process that has seen nothing else: state which lives
+        // as long as the process (a cache, a global) reaches the in-process reference runs
+        // just as it reaches the requests, so agreement between those two proves nothing
+        // about it. Every fourth scenario (every second in the thorough tier) repeats each
+        // reference run in a fresh svgdx process with the same clock.
+        if scn.per_request_clock && scn.cfgs.iter().any(|c| c.use_local_styles) {
+            let dir = env.scratch.join("c07").join("fresh");
+            let _ = std::fs::create_dir_all(&dir);
+            for p in &pairs {
+                let cfg = &scn.cfgs[p.1];
+                if !cfg.use_local_styles {
+                    continue;
+                }
+                let cr = run_child(
+                    env,
+                    "svgdx",
+                    ChildSpec {
+                        args: cfg.to_cli_args(),
+                        stdin: Some(scn.docs[p.0].0.as_slice()),
+                        cwd: &dir,
+                        entropy: Some(scn.entropy ^ 0x5eed),
+                        fake_time_ns: Some(p.2.unwrap_or(scn.clock_ns)),
+                        env: vec![],
+                        env_remove: vec![],
+                        timeout: Duration::from_secs(20),
+                        stdout_to: None,
+                    },
+                );
+                res.stats.evaluations += 1;
+                res.stats.probe("reference_repeated_in_fresh_process");
+                if let (Ok(c), Outcome::Ok(gb)) = (&cr, &golden[p]) {
+                    if c.code == Some(0) && !c.timed_out && &c.stdout != gb {
+                        res.violation(
+                            "isolation/in-process-differs-from-fresh-process",
+                            "c07:isolation:bytes-differ:fresh-process-reference",
+                            format!(
+                                "solo in-process result of (doc {}, cfg {}, clock {:?}) is not what a fresh svgdx process prints for the same input, configuration and clock ({} vs {} bytes): something outlives a transform inside the process",
+                                p.0,
+                                p.1,
+                                p.2,
+                                gb.len(),
+                                c.stdout.len()
+                            ),
+                        );
+                        break;
+                    }
+                }
             }
         }
 
@@ -700,7 +829,7 @@ impl Engine for C07 {
                     res.stats.probe(nn);
                 }
             }
-            let g = &golden[&(r.req.doc, r.req.cfg)];
+            let g = &golden[&(r.req.doc, r.req.cfg, request_clock(&scn, &r.req))];
             let fe = r.req.fe.as_str();
             if r.outcome == Outcome::Budget {
                 res.violation(
